@@ -22,6 +22,7 @@ def run(run, model):
     run.do(rec.none_is_a_value, model)
     run.do(rec.unknown_stops, model)
     run.do(rec.speculative_visit, model)
+    run.do(rec.simple_nodes, model, "C07.node-semantics")
     run.do(rec.placeholder_identity, model, "C07.placeholder-identity")
     run.do(msg.no_nondeterminism, model, "C07.no-history")
     run.do(rec.comprehension_env, model, "C07.comprehension-env")
